@@ -94,10 +94,34 @@ func c13SetTLSVersModel(c *Ctx) {
 	if lit != nil {
 		body = lit.Body
 	}
+	// the scan is the range loop whose element is compared with < or > in its body (the function
+	// also ranges over the extension list)
 	var rangeVar types.Object
 	ast.Inspect(body, func(n ast.Node) bool {
-		if rs, ok := n.(*ast.RangeStmt); ok && rangeVar == nil {
-			if v, ok := rs.Value.(*ast.Ident); ok {
+		rs, ok := n.(*ast.RangeStmt)
+		if !ok {
+			return true
+		}
+		v, ok := rs.Value.(*ast.Ident)
+		if !ok || info.Defs[v] == nil {
+			return true
+		}
+		compared := false
+		ast.Inspect(rs.Body, func(m ast.Node) bool {
+			if _, isRange := m.(*ast.RangeStmt); isRange {
+				return false
+			}
+			if be, ok := m.(*ast.BinaryExpr); ok && (be.Op == token.LSS || be.Op == token.GTR) {
+				for _, side := range []ast.Expr{be.X, be.Y} {
+					if id, ok := an.Unparen(side).(*ast.Ident); ok && info.Uses[id] == info.Defs[v] {
+						compared = true
+					}
+				}
+			}
+			return true
+		})
+		if compared || rangeVar == nil {
+			if compared || lit != nil {
 				rangeVar = info.Defs[v]
 			}
 		}
